@@ -56,6 +56,11 @@
 //	            absent = 0; Go's int does not wrap here: a count is bounded by the number of definitions);
 //	            `if len(pass.File.Defs) > 0 { .. pass.File.Defs[0] .. }` (-> match on the list, l[0] = its head; no
 //	            other slice indexing is in the subset, so no index panic is).
+//	            `for i := range l { x := l[len(l)-i-1]; .. }` (i used nowhere else) -> lint_for over (rev l): i runs
+//	            over 0..len(l)-1, so the index is in range and the elements are visited last to first;
+//	            f(d) for a helper `func f(d dbc.Def) uint64 { for i, x := range []dbc.Def{&dbc.T{},..} { if c { return
+//	            uint64(i) } }; return CONST }` -> lint_first_index (fun x => c) [zero_T; ..] CONST (index of the first
+//	            element satisfying c, CONST when none); reflect.TypeOf(a) == reflect.TypeOf(b) -> kind_eqb.
 //	            further expressions: counts[k] (absent = 0), reflect.TypeOf(d) on a dbc.Def (-> Lint.kind_of d; a
 //	            helper `return []dbc.Def{&dbc.T{}, ..}` is the list of LintGlue's zero_T values, of which only the
 //	            dynamic type can be observed), scanner.Position{Filename: _, Line: a, Column: b} (-> go_position a b:
@@ -93,8 +98,8 @@ var root string
 type tr struct {
 	info     *types.Info
 	pkg      *packages.Package
-	camel    bool                    // uses IsCamelCase -> oracle parameters
-	helpers  map[string]string       // helper name -> Coq definition text
+	camel    bool              // uses IsCamelCase -> oracle parameters
+	helpers  map[string]string // helper name -> Coq definition text
 	horder   []string
 	names    map[types.Object]string // Go local -> Coq name
 	fmts     *[]string               // fmt_known lemmas (shared)
@@ -315,6 +320,9 @@ func (t *tr) binary(x *ast.BinaryExpr) string {
 	case token.LOR:
 		return "(" + a + " || " + b + ")"
 	}
+	if namedIs(lt, "reflect", "Type") && x.Op == token.EQL {
+		return "(kind_eqb " + a + " " + b + ")"
+	}
 	switch {
 	case isInteger(lt):
 		switch x.Op {
@@ -401,6 +409,9 @@ func (t *tr) call(c *ast.CallExpr) string {
 	if pkg == t.pkg.PkgPath && len(c.Args) == 0 {
 		return t.helper(c, name)
 	}
+	if pkg == t.pkg.PkgPath && len(c.Args) == 1 {
+		return "(" + t.indexHelper(c, name) + " " + t.expr(c.Args[0]) + ")"
+	}
 	t.failAt(c, "call outside the subset")
 	return ""
 }
@@ -452,6 +463,78 @@ func (t *tr) helper(at ast.Node, name string) string {
 	}
 	t.failAt(at, "helper %s not found", name)
 	return ""
+}
+
+// indexHelper: func f(d dbc.Def) uint64 { for i, x := range []dbc.Def{&dbc.T{}, ..} { if c { return uint64(i) } }; return CONST }
+// -> lint_first_index (fun x => c) [zero_T; ..] CONST : the index of the first element satisfying c, CONST if none
+func (t *tr) indexHelper(at ast.Node, name string) string {
+	cn := "h_" + t.analyzer + "_" + name
+	if _, ok := t.helpers[name]; ok {
+		return cn
+	}
+	fd := findFunc(t.pkg, name)
+	if fd == nil {
+		t.failAt(at, "helper %s not found", name)
+	}
+	bad := func() {
+		t.failAt(fd, "helper %s is not `for i, x := range []dbc.Def{..} { if c { return uint64(i) } }; return CONST`", name)
+	}
+	if fd.Type.Params.NumFields() != 1 || len(fd.Type.Params.List[0].Names) != 1 || len(fd.Body.List) != 2 ||
+		!namedIs(t.info.TypeOf(fd.Type.Params.List[0].Type), dbcPath, "Def") {
+		bad()
+	}
+	rg, ok1 := fd.Body.List[0].(*ast.RangeStmt)
+	rt, ok2 := fd.Body.List[1].(*ast.ReturnStmt)
+	if !ok1 || !ok2 || rg.Tok != token.DEFINE || rg.Key == nil || rg.Value == nil || len(rg.Body.List) != 1 || len(rt.Results) != 1 {
+		bad()
+	}
+	dflt, isConst := t.constOf(rt.Results[0])
+	cl, isLit := rg.X.(*ast.CompositeLit)
+	is, isIf := rg.Body.List[0].(*ast.IfStmt)
+	if !isConst || !isLit || !isIf || is.Init != nil || is.Else != nil || len(is.Body.List) != 1 {
+		bad()
+	}
+	sl, isSl := t.info.TypeOf(cl).Underlying().(*types.Slice)
+	if !isSl || !namedIs(sl.Elem(), dbcPath, "Def") {
+		bad()
+	}
+	var items []string
+	for _, el := range cl.Elts {
+		u, ok := el.(*ast.UnaryExpr)
+		var in *ast.CompositeLit
+		if ok && u.Op == token.AND {
+			in, _ = u.X.(*ast.CompositeLit)
+		}
+		if in == nil || len(in.Elts) != 0 || dbcStruct(t.info.TypeOf(in)) == "" {
+			t.failAt(el, "element of a []dbc.Def literal that is not &dbc.XxxDef{}")
+		}
+		items = append(items, "zero_"+dbcStruct(t.info.TypeOf(in)))
+	}
+	ret, isRet := is.Body.List[0].(*ast.ReturnStmt)
+	if !isRet || len(ret.Results) != 1 {
+		bad()
+	}
+	conv, isCall := ret.Results[0].(*ast.CallExpr)
+	if !isCall || len(conv.Args) != 1 {
+		bad()
+	}
+	tv := t.info.Types[conv.Fun]
+	id, isId := conv.Args[0].(*ast.Ident)
+	if !tv.IsType() || !isInteger(tv.Type) || tv.Type.Underlying().(*types.Basic).Kind() != types.Uint64 || !isId ||
+		t.info.Uses[id] != t.info.Defs[rg.Key.(*ast.Ident)] {
+		bad()
+	}
+	ast.Inspect(is.Cond, func(n ast.Node) bool {
+		if i2, ok := n.(*ast.Ident); ok && t.info.Uses[i2] == t.info.Defs[rg.Key.(*ast.Ident)] {
+			bad()
+		}
+		return true
+	})
+	p := t.name(t.info.Defs[fd.Type.Params.List[0].Names[0]])
+	x := t.name(t.info.Defs[rg.Value.(*ast.Ident)])
+	t.helpers[name] = fmt.Sprintf("Definition %s (%s : def) : Z :=\n  lint_first_index (fun %s => %s) [%s] %s.\n", cn, p, x, t.expr(is.Cond), strings.Join(items, "; "), dflt)
+	t.horder = append(t.horder, name)
+	return cn
 }
 
 func (t *tr) mapLit(e ast.Expr) string {
@@ -565,7 +648,9 @@ func (t *tr) assigned(stmts []ast.Stmt) []string {
 	for n := range set {
 		out = append(out, n)
 	}
-	sort.Slice(out, func(i, j int) bool { return set[out[i]] < set[out[j]] || (set[out[i]] == set[out[j]] && out[i] < out[j]) })
+	sort.Slice(out, func(i, j int) bool {
+		return set[out[i]] < set[out[j]] || (set[out[i]] == set[out[j]] && out[i] < out[j])
+	})
 	return out
 }
 
@@ -1030,6 +1115,21 @@ func (t *tr) rangeStmt(x *ast.RangeStmt, c ctx) string {
 		if !ok || as.Tok != token.DEFINE || len(as.Lhs) != 1 || len(as.Rhs) != 1 {
 			bad()
 		}
+		if t.isReverseIndex(as.Rhs[0], l, iObj) {
+			// x := l[len(l)-i-1]: i runs over 0..len-1, so the index is in range and the elements come in reverse order
+			for _, st := range body[1:] {
+				ast.Inspect(st, func(n ast.Node) bool {
+					if id, ok := n.(*ast.Ident); ok && t.info.Uses[id] == iObj {
+						bad()
+					}
+					return true
+				})
+			}
+			l = "(rev " + l + ")"
+			elem = t.name(t.info.Defs[as.Lhs[0].(*ast.Ident)])
+			body = body[1:]
+			goto loop
+		}
 		u, ok := as.Rhs[0].(*ast.UnaryExpr)
 		if !ok || u.Op != token.AND {
 			bad()
@@ -1053,6 +1153,7 @@ func (t *tr) rangeStmt(x *ast.RangeStmt, c ctx) string {
 		elem = t.name(t.info.Defs[as.Lhs[0].(*ast.Ident)])
 		body = body[1:]
 	}
+loop:
 	st := t.assigned(body)
 	if len(st) == 0 {
 		t.failAt(x, "loop without effect")
@@ -1072,6 +1173,34 @@ func (t *tr) rangeStmt(x *ast.RangeStmt, c ctx) string {
 	})
 	inner := t.seq(body, ctx{inLoop: true, state: st}, "Next "+tuple(st))
 	return fmt.Sprintf("let %s := lint_for (fun %s %s =>\n%s) %s %s in\n", pat(st), elem, pat(st), inner, l, tuple(st))
+}
+
+// isReverseIndex: e is l[len(l)-i-1] for the Coq text l and the loop index i
+func (t *tr) isReverseIndex(e ast.Expr, l string, iObj types.Object) bool {
+	ix, ok := e.(*ast.IndexExpr)
+	if !ok {
+		return false
+	}
+	if _, isSl := t.info.TypeOf(ix.X).Underlying().(*types.Slice); !isSl || t.expr(ix.X) != l {
+		return false
+	}
+	o, ok := ix.Index.(*ast.BinaryExpr)
+	if !ok || o.Op != token.SUB {
+		return false
+	}
+	if tv, ok := t.info.Types[o.Y]; !ok || tv.Value == nil || tv.Value.ExactString() != "1" {
+		return false
+	}
+	in, ok := o.X.(*ast.BinaryExpr)
+	if !ok || in.Op != token.SUB {
+		return false
+	}
+	id, ok := in.Y.(*ast.Ident)
+	if !ok || t.info.Uses[id] != iObj {
+		return false
+	}
+	c, ok := in.X.(*ast.CallExpr)
+	return ok && isIdent(c.Fun, "len") && len(c.Args) == 1 && t.expr(c.Args[0]) == l
 }
 
 // ---- driver -----------------------------------------------------------------------------------
